@@ -366,3 +366,44 @@ func ZZ_C15_ServerForeignClient() {
 	zzAssert(data.reads+data.writes+data.syncs+data.unmaps+data.pings == 0, "C15.server.foreign-bytes-reached-the-replica")
 	zzReach("C15.server.foreign.done")
 }
+
+// (iii) deadlines of different length (reads and writes 30 s, the monitor's ping 40 s;
+// RPC_READ_TIMEOUT / RPC_WRITE_TIMEOUT may differ): the peer stalls, the request with
+// the shortest deadline expires while another is still pending.  The expired request's
+// entry is still in the pending table and nobody listens on it any more; the client must
+// nevertheless fail the other request promptly, report the failure and empty the table.
+func ZZ_C15_MixedDeadlines() {
+	a, b := zzConnPair()
+	_ = b
+	closeChan := make(chan struct{}, 5)
+	cl := zzClient(a, closeChan)
+	zzArmMixedDeadlines()
+	var errA, errB error
+	doneA, doneB := make(chan bool, 1), make(chan bool, 1)
+	go func() {
+		buf := make([]byte, 1)
+		_, errA = cl.operation(TypeRead, buf, 0, 1)
+		doneA <- true
+	}()
+	zzSettle()
+	other := []uint32{TypeWrite, TypeSync, TypePing}[zzConcretize(zzChoice("other", 3))]
+	go func() {
+		buf := make([]byte, 1)
+		_, errB = cl.operation(other, buf, 1, 1)
+		doneB <- true
+	}()
+	zzSettle()
+	zzAssert(len(doneA) == 0 && len(doneB) == 0, "C15.mixed.request-completed-without-reply")
+	zzExpireFirstDeadline()
+	zzSettleMs(2500)
+	zzAssert(len(doneA) == 1, "C15.mixed.expired-request-still-hanging")
+	zzAssert(len(doneB) == 1, "C15.mixed.pending-request-not-failed-after-another-request-timed-out")
+	if len(doneA) == 1 && len(doneB) == 1 {
+		zzAssert(errA == ErrRWTimeout, "C15.mixed.wrong-error-for-expired-request")
+		zzAssert(errB != nil, "C15.mixed.pending-request-succeeded-without-reply")
+	}
+	zzAssert(cl.err != nil, "C15.mixed.client-not-marked-failed")
+	zzAssert(len(closeChan) >= 1, "C15.mixed.failure-not-reported-on-closeChan")
+	zzAssert(len(cl.messages) == 0, "C15.mixed.request-left-pending")
+	zzReach("C15.mixed.done")
+}
